@@ -619,7 +619,7 @@ impl SymbolTable {
 
         let mut cursor: Option<Cursor> = None;
         let mut label_map: HashMap<String, SymbolData> = HashMap::new();
-        let mut rel_map = HashMap::new();
+        let mut fill_labels: Vec<(u16, String)> = vec![];
         let mut debug_sym = src.map(|s| {
             let src_info = SourceInfo::new(s);
             (vec![None; src_info.count_lines()], src_info)
@@ -660,12 +660,13 @@ impl SymbolTable {
                 }
                 StmtKind::Directive(Directive::Fill(PCOffset::Label(label))) => {
                     let label_text = label.name.to_uppercase();
-                    if let Some(SymbolData { external: true, .. }) = label_map.get(&label_text) {
-                        let Some(cur) = cursor.as_ref() else {
+                    match cursor.as_ref() {
+                        // The `.external` declaration may come after this use,
+                        // so whether this is a relocation entry is decided at the end of the pass.
+                        Some(cur) => fill_labels.push((cur.lc, label_text)),
+                        None => if let Some(SymbolData { external: true, .. }) = label_map.get(&label_text) {
                             return Err(AsmErr::new(AsmErrKind::UndetAddrStmt, stmt.span.clone()));
-                        };
-
-                        rel_map.insert(cur.lc, label_text);
+                        }
                     }
                 },
                 _ => {}
@@ -694,6 +695,11 @@ impl SymbolTable {
         if let Some(cur) = cursor {
             return Err(AsmErr::new(AsmErrKind::UnclosedOrig, cur.block_orig));
         }
+
+        // Relocation table: every `.fill LABEL` whose label is external.
+        let rel_map = fill_labels.into_iter()
+            .filter(|(_, label)| matches!(label_map.get(label), Some(SymbolData { external: true, .. })))
+            .collect();
         
         let debug_symbols = debug_sym.map(|(lines, src_info)| DebugSymbols {
             line_map: LineSymbolMap::new(lines)
